@@ -108,8 +108,6 @@ def expected(name, f):
                 base = SH[f["stype"]]
             else:
                 shifts.append(SH[f["stype"]])
-    elif name == "adr":
-        base, regs, imms = ("add" if f["add"] else "sub"), [f["rd"], 15], [f["uimm"]]
     elif name in ("movw", "movt"):
         regs, imms = [f["rd"]], [f["imm"]]
     elif name in ("mul", "sdiv", "udiv"):
@@ -119,18 +117,15 @@ def expected(name, f):
     elif name in ("umaal", "umull", "umlal", "smull", "smlal"):
         regs = [f["rdlo"], f["rdhi"], f["rn"], f["rm"]]
     elif base in ("str", "ldr", "strb", "ldrb", "strh", "ldrh", "ldrsb", "ldrsh"):
-        if form == "lit":
-            regs, imms = [f["rt"], 15], [f["imm"]]
+        regs = [f["rt"], f["rn"]]
+        wb, post = bool(f["index"] and f["wback"]), not f["index"]
+        if form == "imm":
+            imms = [f["imm"]]
         else:
-            regs = [f["rt"], f["rn"]]
-            wb, post = bool(f["index"] and f["wback"]), not f["index"]
-            if form == "imm":
-                imms = [f["imm"]]
-            else:
-                regs.append(f["rm"])
-                neg = not f["add"]
-                if "stype" in f:
-                    shift(f["stype"], f["samt"])
+            regs.append(f["rm"])
+            neg = not f["add"]
+            if "stype" in f:
+                shift(f["stype"], f["samt"])
     elif base in ("stmda", "ldmda", "stmia", "ldmia", "stmdb", "ldmdb", "stmib", "ldmib"):
         base = {"stmia": "stm", "ldmia": "ldm"}.get(base, base)
         regs, wb, mask = [f["rn"]], bool(f["wback"]), f["list"]
@@ -191,7 +186,7 @@ def main(n=200, seed=1, quiet=False):
         if exp is None:
             continue
         try:
-            got = parse_llvm(byenc[w], name.endswith("_imm") and name.split("_")[0] in A.DP or name == "adr")
+            got = parse_llvm(byenc[w], name.endswith("_imm") and name.split("_")[0] in A.DP)
         except Exception as e:      # noqa
             got = ("unparsed", repr(e))
         compared += 1
